@@ -1,4 +1,392 @@
-import Kap.Basic
+/-
+Driver for C03: reads cases of op lines produced by the Go harness (which ran the REAL window code), and
+for every case
+  1. evaluates the property (Kap/Spec/C03.lean) on the OBSERVED batches  → SPECFAIL,
+  2. replays the case on the model (Kap/Model/C03.lean) and compares batches, ring indexes and nextEmit
+     with what the implementation did                                      → MISMATCH,
+  3. reports which structural branches of the model the case went through  → `br=`.
+Case kinds: `tw …` / `cw …` (one window receiver driven through the hook, observation per message) and
+`task tw …` / `task cw …` (a real task with interleaved groups, observation = all batches per group).
+-/
+import Kap.Spec.C03
+open Kap Kap.C03
 
-/-- Driver for property C03 (replaced by the property's driver). -/
-def main : IO Unit := Kap.driverMain (fun _ _ => .badop "driver not implemented")
+namespace Kap.C03.Drv
+
+/-- observed output of one message -/
+inductive Obs where
+  | none
+  | batch (b : Batch)
+  | bad (what : String)     -- panic / err / malformed
+deriving Repr, Inhabited
+
+def lookupT (sent : List (Nat × Int)) (id : Nat) : Option Int :=
+  (sent.find? (fun p => p.1 == id)).map (·.2)
+
+/-- `<tmax>:<id>,<id>,…` or `<tmax>:-` -/
+def parseBatch (sent : List (Nat × Int)) (tok : String) : Option Batch :=
+  match tok.splitOn ":" with
+  | [T, ids] => do
+    let T ← T.toInt?
+    if ids == "-" then pure { tmax := T, pts := [] } else
+    let pts ← (ids.splitOn ",").mapM (fun s => do
+      let id ← s.toNat?
+      let t ← lookupT sent id
+      pure ({ t := t, id := id } : Pt))
+    pure { tmax := T, pts := pts }
+  | _ => none
+
+def parseObs (sent : List (Nat × Int)) (tok : String) : Obs :=
+  if tok == "-" then .none
+  else if tok == "panic" || tok == "err" then .bad tok
+  else match parseBatch sent tok with
+    | some b => .batch b
+    | none => .bad s!"malformed:{tok}"
+
+def renderBatch (b : Batch) : String :=
+  s!"{b.tmax}:" ++ (if b.pts.isEmpty then "-" else ",".intercalate (b.pts.map (fun p => toString p.id)))
+
+def renderOut : Option Batch → String
+  | none => "-"
+  | some b => renderBatch b
+
+structure St where
+  branches : List String := []
+  nontrivial : Bool := false
+
+def St.add (st : St) (b : String) : St :=
+  if st.branches.contains b then st else { st with branches := b :: st.branches }
+
+def St.addAll (st : St) (bs : List String) : St := bs.foldl St.add st
+
+/-! ### branch tags (computed from the model state before a step) -/
+
+def insertTags (b : Buf) : List String :=
+  let g := if b.size == b.cap then
+      [if b.size == 0 then "ins:grow-empty" else if b.stop > b.start then "ins:grow-lin" else "ins:grow-wrapped"]
+    else []
+  let b := if b.size == b.cap then b.growWith nilPt else b
+  let wrap := b.window.length == b.cap && b.stop == b.window.length
+  let wtag := if wrap then [if b.start == b.window.length then "ins:wrap-drained-start-at-len" else "ins:wrap"] else []
+  let b := b.wrap
+  g ++ wtag ++ [if b.stop == b.window.length then "ins:append" else
+    (if b.size == 0 then "ins:overwrite-into-empty" else "ins:overwrite")]
+
+def purgeTags (b : Buf) (oldest : Int) (incl : Bool) : List String :=
+  let inc := includes oldest incl
+  let l := b.window.length
+  if l == 0 then ["pg:nil-window"] else
+  let r := b.purge oldest incl
+  let eff := if r.size == 0 then (if b.size == 0 then "already-empty" else "drain")
+             else if r.size < b.size then "partial" else "keep-all"
+  let br :=
+    if b.start < b.stop then "pg:lin"
+    else if b.size == 0 then "pg:empty-ring"
+    else if inc (b.window.getD (l - 1) nilPt).t then (if b.start == b.stop then "pg:full-ring-tail-in" else "pg:wr-tail-in")
+    else (if b.start == b.stop then "pg:full-ring-tail-out" else "pg:wr-tail-out")
+  let atEnd := if r.size == 0 && r.start == l then ["pg:drained-start-at-len"] else []
+  [br ++ "/" ++ eff] ++ atEnd
+
+def pointsTags (b : Buf) : List String :=
+  [if b.size == 0 then "pts:empty" else if b.stop > b.start then "pts:lin" else
+    (if b.start == b.window.length then "pts:wrapped-start-at-len" else "pts:wrapped")]
+
+def shapeTag (b : Buf) : String :=
+  if b.size == 0 then "shape:empty"
+  else if b.size == b.cap then (if b.start == 0 then "shape:full-lin" else "shape:full-wrapped")
+  else if b.stop > b.start then "shape:lin" else "shape:wrapped"
+
+def cfgTags (c : TCfg) : List String :=
+  [if c.every == 0 then "cfg:every=0" else if c.every < c.period then "cfg:every<period"
+    else if c.every == c.period then "cfg:every=period" else "cfg:every>period",
+   match c.fill, c.align with
+    | false, false => "init:plain" | false, true => "init:align"
+    | true, false => "init:fill" | true, true => "init:fill-align"] ++
+  (if c.align && c.every > 0 && (86400000000000 : Int) % c.every != 0 then ["trunc:non-day-dividing"] else [])
+
+def stepTags (w : TW) (m : Msg) : List String :=
+  let kind := match m with | .point _ => "pt" | .barrier _ => "bar"
+  let e0 := w.cfg.every == 0
+  let emit := !decide (m.t < w.nextEmit)
+  let bnd := if m.t == w.nextEmit then ["sched:t=due"] else if m.t + 1 == w.nextEmit then ["sched:t=due-1"] else []
+  let main := s!"{kind}:{if e0 then "e0" else "en"}-{if emit then "emit" else "hold"}"
+  let bufBefore := match m with
+    | .point p => if e0 then w.buf.insert p else w.buf
+    | .barrier _ => w.buf
+  let oldest := if e0 then m.t - w.cfg.period else w.nextEmit - w.cfg.period
+  let pg := if emit then purgeTags bufBefore oldest (!e0) ++ pointsTags (bufBefore.purge oldest (!e0)) else []
+  let edge := if emit && bufBefore.points.any (fun q => q.t == oldest) then ["content:point-on-left-edge"] else []
+  let ins := match m with
+    | .point _ =>
+      if e0 then insertTags w.buf
+      else insertTags (if emit then w.buf.purge oldest true else w.buf)
+    | .barrier _ => []
+  [main] ++ bnd ++ pg ++ edge ++ ins
+
+/-! ### time windows through the hook -/
+
+structure TLine where
+  raw : String
+  msg : Msg
+  obs : Obs
+  ring : List Int      -- start stop size len cap nextEmit (observed)
+
+def parseMsgLine (sent : List (Nat × Int)) (l : String) : Option (TLine × List (Nat × Int)) :=
+  let (opT, obsT) := splitObs (tokens l)
+  let mk (m : Msg) (sent : List (Nat × Int)) : Option (TLine × List (Nat × Int)) :=
+    match obsT with
+    | [o] => some ({ raw := l, msg := m, obs := parseObs sent o, ring := [] }, sent)
+    | o :: rest =>
+      match rest.mapM String.toInt? with
+      | some r => some ({ raw := l, msg := m, obs := parseObs sent o, ring := r }, sent)
+      | none => none
+    | [] => none
+  match opT with
+  | ["p", t, id] => do
+    let t ← t.toInt?; let id ← id.toNat?
+    mk (.point { t := t, id := id }) ((id, t) :: sent)
+  | ["b", t] => do
+    let t ← t.toInt?
+    mk (.barrier t) sent
+  | _ => none
+
+def parseLines (lines : List String) : Option (List TLine) :=
+  let rec go (sent : List (Nat × Int)) : List String → List TLine → Option (List TLine)
+    | [], acc => some acc.reverse
+    | l :: ls, acc =>
+      match parseMsgLine sent l with
+      | some (tl, sent') => go sent' ls (tl :: acc)
+      | none => none
+  go [] lines []
+
+def hypTime (c : TCfg) (msgs : List Msg) : Bool :=
+  decide (c.period > 0) && decide (c.every ≥ 0) && nondecreasing (msgs.map Msg.t)
+
+def judgeTime (c : TCfg) (ls : List TLine) : Verdict := Id.run do
+  let msgs := ls.map (·.msg)
+  let hyp := hypTime c msgs
+  let mut st : St := {}
+  st := st.addAll (cfgTags c)
+  if !hyp then st := st.add "hyp:out-of-order"
+  -- 1. the property on the observed output
+  if hyp then
+    let mut tr : Trace := []
+    for l in ls do
+      match l.obs with
+      | .bad w => return .specfail "no-panic" s!"step {tr.length} ({l.raw}): implementation answered {w}"
+      | .none => tr := tr ++ [(l.msg, none)]
+      | .batch b => tr := tr ++ [(l.msg, some b)]
+    match traceViolation c tr with
+    | some (k, cl) =>
+      let (m, o) := tr.getD k (default, none)
+      let t0 := (tr.head?.map (·.1.t)).getD 0
+      let d := due c t0 (tr.take k)
+      let T := if c.every = 0 then m.t else d
+      let want := specContent c T (received ((tr.take k).map (·.1) ++ [m]))
+      return .specfail cl s!"step {k}: due {d}, message time {m.t}, observed {renderOut o}, required content {renderBatch ⟨T, want⟩}"
+    | none => pure ()
+  -- 2. the model against the observed output and ring indexes
+  let mut w? : Option TW := none
+  let mut k := 0
+  let mut emitted := 0
+  let mut nonempty := false
+  let mut dropped := false
+  for l in ls do
+    let w := match w? with | some w => w | none => TW.init c l.msg.t
+    st := st.addAll (stepTags w l.msg)
+    let (w', o) := w.step l.msg
+    st := st.add (shapeTag w'.buf)
+    if w'.buf.panicked then
+      match l.obs with
+      | .bad "panic" => return .ok st.nontrivial st.branches.reverse
+      | _ => return .mismatch s!"step {k}: model panics, observed {l.raw}"
+    let obsOut : Option (Option Batch) := match l.obs with | .none => some none | .batch b => some (some b) | .bad _ => none
+    if obsOut != some o then
+      return .mismatch s!"step {k} ({l.raw}): model emits {renderOut o}"
+    let mring : List Int := [w'.buf.start, w'.buf.stop, w'.buf.size, w'.buf.window.length, w'.buf.cap, w'.nextEmit]
+    if !l.ring.isEmpty && l.ring.take 6 != mring then
+      return .mismatch s!"step {k} ({l.raw}): model ring/nextEmit {mring}"
+    match o with
+    | some b =>
+      emitted := emitted + 1
+      if !b.pts.isEmpty then nonempty := true
+      if w'.buf.size < w.buf.size + 1 then dropped := true
+    | none => pure ()
+    w? := some w'
+    k := k + 1
+  return .ok (hyp && emitted ≥ 2 && nonempty && dropped) st.branches.reverse
+
+/-! ### count windows through the hook -/
+
+def cwTags (w : CW) : List String :=
+  let full := w.size == w.period
+  let w1 := (w.point ⟨0, 0⟩).1
+  let emit := w.count + 1 == w.nextEmit
+  [if full then "cw:full-advance" else "cw:filling", if emit then "cw:emit" else "cw:hold"] ++
+  (if emit then [if w1.stop > w1.start then "cwpts:lin" else if w1.start == 0 then "cwpts:full-from-0" else "cwpts:wrapped"] else [])
+
+def judgeCount (period every : Nat) (fill : Bool) (ls : List TLine) : Verdict := Id.run do
+  let hyp := period ≥ 1 && every ≥ 1
+  let mut st : St := {}
+  st := st.add (if every < period then "cfg:cw-every<period" else if every == period then "cfg:cw-every=period" else "cfg:cw-every>period")
+  st := st.add (if fill then "cfg:cw-fill" else "cfg:cw-nofill")
+  if period == 1 then st := st.add "cfg:cw-period=1"
+  -- 1. the property on the observed output
+  if hyp then
+    let mut tr : List (Pt × Option Batch) := []
+    for l in ls do
+      match l.msg, l.obs with
+      | _, .bad w => return .specfail "no-panic" s!"({l.raw}): implementation answered {w}"
+      | .point p, .none => tr := tr ++ [(p, none)]
+      | .point p, .batch b => tr := tr ++ [(p, some b)]
+      | .barrier _, .none => pure ()
+      | .barrier _, .batch _ => return .specfail "count-early-emit" s!"({l.raw}): a barrier emitted a batch"
+    match countViolationFrom period every fill [] tr with
+    | some (k, cl) =>
+      let want := specCountOut period every fill ((tr.take (k + 1)).map (·.1))
+      return .specfail cl s!"after point {k + 1}: observed {renderOut ((tr.getD k (default, none)).2)}, required {renderOut want}"
+    | none => pure ()
+  -- 2. the model
+  let mut w := CW.init period every fill
+  let mut k := 0
+  let mut nt := false
+  for l in ls do
+    match l.msg with
+    | .barrier _ =>
+      st := st.add "cw:barrier-forwarded"
+      match l.obs with
+      | .none => pure ()
+      | _ => return .mismatch s!"step {k} ({l.raw}): model emits nothing on a barrier"
+    | .point p =>
+      st := st.addAll (cwTags w)
+      let (w', o) := w.point p
+      let obsOut : Option (Option Batch) := match l.obs with | .none => some none | .batch b => some (some b) | .bad _ => none
+      if obsOut != some o then return .mismatch s!"step {k} ({l.raw}): model emits {renderOut o}"
+      let mring : List Int := [w'.start, w'.stop, w'.size, w'.buf.length, w'.buf.length, w'.nextEmit, w'.count]
+      if !l.ring.isEmpty && l.ring != mring then return .mismatch s!"step {k} ({l.raw}): model ring {mring}"
+      if o.isSome && w'.count > period then nt := true
+      w := w'
+    k := k + 1
+  return .ok (hyp && nt) st.branches.reverse
+
+/-! ### real tasks with interleaved groups -/
+
+/-- Align the batches a group's sink received with the group's messages: the property decides, from the
+trace so far, whether a message must emit. Returns the trace or the violated schedule clause. -/
+def alignTime (c : TCfg) (t0 : Int) : List Msg → List Batch → Trace → Except String Trace
+  | [], [], tr => .ok tr
+  | [], b :: _, tr => .error s!"schedule-extra-emit {tr.length} batch {renderBatch b} has no triggering message"
+  | m :: ms, bs, tr =>
+    if m.t < due c t0 tr then alignTime c t0 ms bs (tr ++ [(m, none)])
+    else match bs with
+      | [] => .error s!"schedule-missed-emit {tr.length} message at {m.t} reached due time {due c t0 tr} but no batch was emitted"
+      | b :: bs' => alignTime c t0 ms bs' (tr ++ [(m, some b)])
+
+def alignCount (period every : Nat) (fill : Bool) : List Pt → List Batch → List Pt → List (Pt × Option Batch) → Except String (List (Pt × Option Batch))
+  | [], [], _, tr => .ok tr
+  | [], b :: _, _, tr => .error s!"count-early-emit {tr.length} batch {renderBatch b} has no triggering point"
+  | p :: ps, bs, pre, tr =>
+    if countDue period every fill (pre.length + 1) then
+      match bs with
+      | [] => .error s!"count-missed-emit {tr.length} no batch after point {pre.length + 1}"
+      | b :: bs' => alignCount period every fill ps bs' (pre ++ [p]) (tr ++ [(p, some b)])
+    else alignCount period every fill ps bs (pre ++ [p]) (tr ++ [(p, none)])
+
+inductive Win where
+  | time (c : TCfg)
+  | count (period every : Nat) (fill : Bool)
+
+def judgeTask (win : Win) (lines : List String) : Verdict := Id.run do
+  -- parse
+  let mut sent : List (Nat × Int) := []
+  let mut byGroup : List (String × List Pt) := []
+  let mut finals : List (String × List String) := []
+  for l in lines do
+    let (opT, obsT) := splitObs (tokens l)
+    match opT with
+    | ["w", g, t, id] =>
+      let some g := unesc g | return .badop l
+      let some t := t.toInt? | return .badop l
+      let some id := id.toNat? | return .badop l
+      sent := (id, t) :: sent
+      byGroup := if byGroup.any (·.1 == g) then byGroup.map (fun p => if p.1 == g then (g, p.2 ++ [⟨t, id⟩]) else p)
+                 else byGroup ++ [(g, [⟨t, id⟩])]
+    | ["final", g] =>
+      let some g := unesc g | return .badop l
+      finals := finals ++ [(g, obsT)]
+    | _ => return .badop l
+  let mut st : St := {}
+  st := st.add "task"
+  if byGroup.length ≥ 2 then st := st.add "task:interleaved-groups"
+  let mut nt := false
+  for (g, obsT) in finals do
+    let pts := (byGroup.find? (·.1 == g)).map (·.2) |>.getD []
+    let obsBatches : Option (List Batch) :=
+      if obsT == ["none"] then some [] else obsT.mapM (parseBatch sent)
+    match win with
+    | .time c =>
+      let msgs := pts.map Msg.point
+      let hyp := hypTime c msgs
+      st := st.addAll (cfgTags c)
+      -- 1. property on observed
+      if hyp then
+        let some bs := obsBatches | return .specfail "no-panic" s!"group {esc g}: implementation answered {obsT}"
+        match msgs with
+        | [] => if !bs.isEmpty then return .specfail "schedule-extra-emit" s!"group {esc g} received nothing but emitted"
+        | m0 :: _ =>
+          match alignTime c m0.t msgs bs [] with
+          | .error e => return .specfail ((e.splitOn " ").headD "schedule") s!"group {esc g}: {e}"
+          | .ok tr =>
+            match traceViolation c tr with
+            | some (k, cl) => return .specfail cl s!"group {esc g} step {k}: observed {renderOut ((tr.getD k (default, none)).2)}"
+            | none => pure ()
+      -- 2. model
+      let mo := (runTime c msgs).filterMap id
+      if mo.length ≥ 2 && mo.any (fun b => !b.pts.isEmpty) then nt := true
+      if obsBatches != some mo then
+        return .mismatch s!"group {esc g}: model emits {" ".intercalate (mo.map renderBatch)} observed {obsT}"
+    | .count period every fill =>
+      let hyp := period ≥ 1 && every ≥ 1
+      if hyp then
+        let some bs := obsBatches | return .specfail "no-panic" s!"group {esc g}: implementation answered {obsT}"
+        match alignCount period every fill pts bs [] [] with
+        | .error e => return .specfail ((e.splitOn " ").headD "count") s!"group {esc g}: {e}"
+        | .ok tr =>
+          match countViolationFrom period every fill [] tr with
+          | some (k, cl) => return .specfail cl s!"group {esc g} after point {k + 1}: observed {renderOut ((tr.getD k (default, none)).2)}"
+          | none => pure ()
+      let mo := (runCount period every fill pts).filterMap id
+      if mo.length ≥ 1 && pts.length > period then nt := true
+      st := st.add "task:count"
+      if obsBatches != some mo then
+        return .mismatch s!"group {esc g}: model emits {" ".intercalate (mo.map renderBatch)} observed {obsT}"
+  return .ok nt st.branches.reverse
+
+def b01? (s : String) : Option Bool := if s == "1" then some true else if s == "0" then some false else none
+
+def judge (_id : String) (lines : Array String) : Verdict :=
+  match lines.toList with
+  | [] => .badop "empty case"
+  | h :: rest =>
+    match tokens h with
+    | ["tw", p, e, a, f] =>
+      match p.toInt?, e.toInt?, b01? a, b01? f, parseLines rest with
+      | some p, some e, some a, some f, some ls => judgeTime ⟨p, e, a, f⟩ ls
+      | _, _, _, _, _ => .badop h
+    | ["cw", p, e, f] =>
+      match p.toNat?, e.toNat?, b01? f, parseLines rest with
+      | some p, some e, some f, some ls => judgeCount p e f ls
+      | _, _, _, _ => .badop h
+    | ["task", "tw", p, e, a, f] =>
+      match p.toInt?, e.toInt?, b01? a, b01? f with
+      | some p, some e, some a, some f => judgeTask (.time ⟨p, e, a, f⟩) rest
+      | _, _, _, _ => .badop h
+    | ["task", "cw", p, e, f] =>
+      match p.toNat?, e.toNat?, b01? f with
+      | some p, some e, some f => judgeTask (.count p e f) rest
+      | _, _, _ => .badop h
+    | _ => .badop h
+
+end Kap.C03.Drv
+
+def main : IO Unit := Kap.driverMain Kap.C03.Drv.judge
